@@ -28,6 +28,7 @@ def step (toks : List String) : Option (String × String) :=
            let s ← kv rest "s"
            some (toString (Gen.mediaTypeRe.accepts s.toList), toString (Spec.Grammar.mediaType.accepts s.toList))
        | "det" :: _ => some ("same", "same")
+       | "again" :: _ => some ("same", "same")   -- identical inputs into a target that already holds the result
        | _ => none)
     else do
       let ver ← match ← kv rest "ver" with | "10" => some PackVer.v10 | "11" => some .v11 | _ => none
